@@ -21,6 +21,10 @@ def box_bounds(spec):
     """-> (low array, high array) of the space's shape, float64 (inf allowed)"""
     shape = tuple(spec["shape"])
     m = int(np.prod(shape)) if shape else 1
+    if isinstance(spec["low"], list) or isinstance(spec["high"], list):      # explicit per-element bounds (flat, row-major)
+        lo = np.array(spec["low"], dtype=np.float64) if isinstance(spec["low"], list) else np.full(m, float(spec["low"]))
+        hi = np.array(spec["high"], dtype=np.float64) if isinstance(spec["high"], list) else np.full(m, float(spec["high"]))
+        return lo.reshape(shape), hi.reshape(shape)
     if spec["low"] == "per":
         lo = np.zeros(m)
         hi = np.array([2.0 ** (j % 3 + 1) for j in range(m)])
@@ -86,7 +90,11 @@ def uses_inexact_norm(case):
     if not case.get("normalize"):
         return False
     for l in leaves(case["space"]):
-        if l["t"] == "box" and len(l["shape"]) == 3 and l["low"] not in ("-inf", "per") and l["high"] != "inf":
+        if l["t"] == "box" and len(l["shape"]) == 3 and (isinstance(l["low"], list) or isinstance(l["high"], list)):
+            lo, hi = box_bounds(l)
+            if np.any(np.frexp(hi - lo)[0] != 0.5):
+                return True
+        elif l["t"] == "box" and len(l["shape"]) == 3 and l["low"] not in ("-inf", "per") and l["high"] != "inf":
             rng = float(l["high"]) - float(l["low"])
             m, _ = np.frexp(rng)
             if m != 0.5:
@@ -103,7 +111,12 @@ def leaf_array(leaf, lead, pat=0, trail=None, bad=None):
     t = leaf["t"]
     if t == "box":
         dt, lo, hi = leaf["dtype"], leaf["low"], leaf["high"]
-        if dt == "uint8" and pat == 99:                  # pixels exactly at the bounds
+        if isinstance(lo, list) or isinstance(hi, list):   # per-element bounds: low + {0, 1/4, 1/2, 1, 3/4} of the element's range
+            blo, bhi = box_bounds(leaf)
+            blo, bhi = blo.reshape(-1), bhi.reshape(-1)
+            frac = np.array([0.0, 0.25, 0.5, 1.0, 0.75])[(i + pat) % 5]
+            v = blo[i % m] + frac * (bhi[i % m] - blo[i % m])
+        elif dt == "uint8" and pat == 99:                  # pixels exactly at the bounds
             v = np.where(i % 2 == 0, 0, 255)
         elif dt == "uint8":
             v = (37 * i + 11 * pat + 3) % 256
